@@ -95,6 +95,7 @@ class _DeviceManagementConnection(ABC):
         "_disconnect_callback",
         "_heartbeat",
         "_pending",
+        "_pending_matches",
         "_request_lock",
         "communication_channel",
         "gateway_ip",
@@ -124,6 +125,7 @@ class _DeviceManagementConnection(ABC):
         self._data_endpoint_addr: tuple[str, int] | None = None
         self._disconnect_callback: KNXIPTransport.Callback | None = None
         self._pending: asyncio.Future[CEMIFrame] | None = None
+        self._pending_matches: Callable[[CEMIFrame], bool] | None = None
         self._request_lock = asyncio.Lock()
         self._heartbeat = ConnectionHeartbeat(
             name="Device management connection",
@@ -329,6 +331,7 @@ class _DeviceManagementConnection(ABC):
                 asyncio.get_running_loop().create_future()
             )
             self._pending = pending
+            self._pending_matches = matches
             try:
                 await self._send_request(cemi)
                 # The spec defines this timeout for the acknowledgement only;
@@ -360,6 +363,7 @@ class _DeviceManagementConnection(ABC):
                 raise
             finally:
                 self._pending = None
+                self._pending_matches = None
 
     def _cemi_received(self, raw_cemi: bytes) -> None:
         """Handle a cEMI frame the server sent."""
@@ -385,9 +389,27 @@ class _DeviceManagementConnection(ABC):
                     logger.exception("Unexpected error in indication_callback")
             return
         if self._pending is not None and not self._pending.done():
+            if not self._answers_pending_request(cemi):
+                # e.g. the late answer to an earlier, timed out request: it must
+                # not pass for the answer of the current one - nor, over UDP,
+                # for the proof that the server accepted it.
+                logger.debug(
+                    "Discarding cEMI frame not answering the request: %s", cemi
+                )
+                return
             self._pending.set_result(cemi)
             return
         logger.debug("Received an unexpected cEMI frame: %s", cemi)
+
+    def _answers_pending_request(self, cemi: CEMIFrame) -> bool:
+        """Tell whether `cemi` is what the pending request waits for."""
+        if self._pending_matches is None:
+            return True
+        try:
+            return self._pending_matches(cemi)
+        except Exception:  # pylint: disable=broad-exception-caught
+            # left to `request()`, which raises it to the caller
+            return True
 
     ####################
     #
